@@ -42,7 +42,12 @@ func (o *goSliceObject) setLength(value Value) {
 		// No change needed.
 	case wantInt < o.value.Cap():
 		// Fits in current capacity.
-		o.value.SetLen(wantInt)
+		if o.value.CanSet() {
+			o.value.SetLen(wantInt)
+		} else {
+			// A slice handed over by value: reslice our copy of the header.
+			o.value = o.value.Slice(0, wantInt)
+		}
 	default:
 		// Needs expanding.
 		newSlice := reflect.MakeSlice(o.value.Type(), wantInt, wantInt)
